@@ -11076,3 +11076,140 @@ func ruleEveryPatternBranchEmitsTheCaseExpression(c *core.Ctx) {
 		c.Undecided(rule, "anchor/type switches over dsl.Pattern", 0, "none found in the back ends")
 	}
 }
+
+// ruleConditionalTargetAssignmentsHaveElse (RS1): the generated C++ readers hand ONE object to every item of a stream
+// (ReadX(value) in a loop, CopyTo, the batched reads), so generated code that assigns its out-parameter only under a
+// condition leaves the previous item's value in it on the other branch. Where a C++ generator prints
+//
+//	if (<cond>) {            <- one print
+//	    <assignment to the target>   <- inside w.Indented(...)
+//	}                        <- the next print
+//
+// the print that closes the block opens an else (`} else {`): the target is assigned (reset, or the block throws) on
+// both branches. Fixes 426e174 (NDJSON from_json: an absent optional field kept the previous item's value) and 138ca61
+// (version conversions of optionals/unions: `5 null 7 null` was read as 5 5 7 7).
+func ruleConditionalTargetAssignmentsHaveElse(c *core.Ctx) {
+	const rule = "RS1"
+	c.Rule(rule, "cpp/binary, cpp/ndjson: a printed `if (...) {` whose indented body assigns the conversion target / a field of the out-parameter is closed by a printed `} else {` (the other branch assigns too), never by a bare `}`", 5)
+	n := 0
+	emitLit := func(info *types.Info, s ast.Stmt) (string, *ast.CallExpr, bool) {
+		es, ok := s.(*ast.ExprStmt)
+		if !ok {
+			return "", nil, false
+		}
+		ce, ok := es.X.(*ast.CallExpr)
+		if !ok {
+			return "", nil, false
+		}
+		name := types.ExprString(ce.Fun)
+		if !(strings.HasSuffix(name, "Fprintf") || strings.HasSuffix(name, "WriteString") || strings.HasSuffix(name, "WriteStringln") || strings.HasSuffix(name, "Fprintln") || strings.HasSuffix(name, "Fprint")) {
+			return "", nil, false
+		}
+		for _, a := range ce.Args {
+			if tv, ok := info.Types[a]; ok && tv.Value != nil && tv.Value.Kind() == constant.String {
+				return constant.StringVal(tv.Value), ce, true
+			}
+		}
+		return "", nil, false
+	}
+	ifOpen := regexp.MustCompile(`^\s*if \(.*\) \{\s*$`)
+	for _, d := range c.AllDecls() {
+		p := c.DeclPkg(d)
+		if p == nil || d.Body == nil || c.IsTestFile(d.Pos()) || !(strings.HasSuffix(p.PkgPath, "/internal/cpp/binary") || strings.HasSuffix(p.PkgPath, "/internal/cpp/ndjson")) {
+			continue
+		}
+		info := p.TypesInfo
+		self, _ := info.Defs[d.Name].(*types.Func)
+		assignsTarget := func(body ast.Node) bool {
+			hit := false
+			ast.Inspect(body, func(m ast.Node) bool {
+				ce, ok := m.(*ast.CallExpr)
+				if !ok || hit {
+					return !hit
+				}
+				// the function converting into the same target again
+				if f := core.Callee(info, ce); f != nil && self != nil && f.Origin() == self {
+					for _, a := range ce.Args {
+						if id, ok := ast.Unparen(a).(*ast.Ident); ok && strings.Contains(strings.ToLower(id.Name), "target") {
+							hit = true
+						}
+					}
+				}
+				for i, a := range ce.Args {
+					tv, ok := info.Types[a]
+					if !ok || tv.Value == nil || tv.Value.Kind() != constant.String {
+						continue
+					}
+					lit := constant.StringVal(tv.Value)
+					if strings.Contains(lit, "get_to(value.") {
+						hit = true
+					}
+					if strings.HasPrefix(strings.TrimSpace(lit), "%s = ") || strings.HasPrefix(strings.TrimSpace(lit), "%[1]s = ") {
+						if i+1 < len(ce.Args) {
+							if id, ok := ast.Unparen(ce.Args[i+1]).(*ast.Ident); ok && strings.Contains(strings.ToLower(id.Name), "target") {
+								hit = true
+							}
+						}
+					}
+				}
+				return !hit
+			})
+			return hit
+		}
+		k := 0
+		var walk func(list []ast.Stmt)
+		walk = func(list []ast.Stmt) {
+			for i := 0; i+2 < len(list); i++ {
+				l1, _, ok1 := emitLit(info, list[i])
+				if !ok1 || !ifOpen.MatchString(strings.TrimRight(l1, "\n")) {
+					continue
+				}
+				es, ok := list[i+1].(*ast.ExprStmt)
+				if !ok {
+					continue
+				}
+				ind, ok := es.X.(*ast.CallExpr)
+				if !ok || !strings.HasSuffix(types.ExprString(ind.Fun), "Indented") || len(ind.Args) != 1 {
+					continue
+				}
+				if !assignsTarget(ind.Args[0]) {
+					continue
+				}
+				l3, ce3, ok3 := emitLit(info, list[i+2])
+				if !ok3 {
+					continue
+				}
+				n++
+				k++
+				key := fmt.Sprintf("%s/%s#%d", c.FuncName(d), strings.TrimSpace(strings.SplitN(l1, "(", 2)[0])+" "+strings.TrimSpace(firstWords(l1, 4)), k)
+				c.Check(strings.HasPrefix(strings.TrimSpace(l3), "} else"), rule, key, ce3.Pos(), "closed by `} else {`: the target is assigned on both branches",
+					"the printed `if` assigns the target only when its condition holds and is closed by a bare `}`: on the other branch the object the caller reuses for every item of a stream keeps the value of the previous item")
+			}
+			for _, s := range list {
+				ast.Inspect(s, func(m ast.Node) bool {
+					switch x := m.(type) {
+					case *ast.BlockStmt:
+						walk(x.List)
+						return false
+					case *ast.CaseClause:
+						walk(x.Body)
+						return false
+					}
+					return true
+				})
+			}
+		}
+		walk(d.Body.List)
+	}
+	if n == 0 {
+		c.Undecided(rule, "anchor/conditional target assignments", 0, "no printed `if` with an assignment to the target found in cpp/binary or cpp/ndjson")
+	}
+}
+
+func firstWords(s string, n int) string {
+	f := strings.Fields(s)
+	if len(f) > n {
+		f = f[:n]
+	}
+	return strings.Join(f, " ")
+}
